@@ -31,13 +31,24 @@ def cpp_expand(expr, cppargs, incdirs):
     return ' '.join(out.split())
 
 
+def loops_of(gb):
+    out = subprocess.run(['goto-instrument', '--show-loops', gb], stdout=subprocess.PIPE, stderr=subprocess.DEVNULL, text=True).stdout
+    return re.findall(r'^Loop (.*)\.(\d+):$', out, re.M)
+
+
 def fill(template_path, gb, out_path, incdirs=()):
+    """returns the number of loop contracts written.  An entry marked "optional_if_loop_free" is dropped when the function
+    (as it is in the current tree) has no loop with that id: the function contract is then enforced without a loop contract."""
     tpl = json.load(open(template_path))
     syms = symbols(gb)
+    have = loops_of(gb)
     nloops = 0
     for fn in tpl['functions']:
         for rx, loops in fn.items():
-            for lp in loops:
+            for lp in list(loops):
+                if lp.pop('optional_if_loop_free', False) and not any(re.fullmatch(rx, f) and i == lp['loop_id'] for f, i in have):
+                    loops.remove(lp)
+                    continue
                 prefix = lp.pop('fn_prefix')
                 locs = lp.pop('locals', [])
                 cppargs = lp.pop('cpp', None)
@@ -54,5 +65,7 @@ def fill(template_path, gb, out_path, incdirs=()):
                 if pairs:
                     lp['symbol_map'] = ';'.join(pairs)
                 nloops += 1
+    tpl['functions'] = [{rx: lps for rx, lps in fn.items() if lps} for fn in tpl['functions']]
+    tpl['functions'] = [fn for fn in tpl['functions'] if fn]
     json.dump(tpl, open(out_path, 'w'), indent=1)
     return nloops
